@@ -2,6 +2,7 @@
 from bsv.cfg import CFG
 from bsv.effects import live_walk
 from bsv.facts import AnalysisBroken, child, strip, strip_targs
+from bsv.expr import BoolExpr, resolve
 from rules.c20 import pattern_in_lib
 
 PROP = 'C18'
@@ -213,8 +214,12 @@ def run(prog, rep):
         if pq == 'BitSerializer::SerializeArray' and 'std::valarray<' in f.id:
             d, nm = container_param(f)
             rep.touch(f)
-            ok = any(n['k'] == 'CXXMemberCallExpr' and receiver_is(f, n, d) and f.callee(n)['n'] == 'resize'
-                     and any((f.callee(x) or {}).get('n') == 'size' for x in f.walk(n) if x['k'] == 'CXXMemberCallExpr' and x is not n) for n in live_walk(f))
+            ok = False
+            for n in live_walk(f):
+                if n['k'] == 'CXXMemberCallExpr' and receiver_is(f, n, d) and f.callee(n)['n'] == 'resize' and len(n['c']) > 1:
+                    arg = resolve(f, n['c'][1])       # temp.size(), possibly through a named temporary
+                    if arg is not None and arg['k'] == 'CXXMemberCallExpr' and (f.callee(arg) or {}).get('n') == 'size' and not receiver_is(f, arg, d):
+                        ok = True
             if ok:
                 rep.ok('R18.1c', 'SerializeArray(valarray)|' + f.sym.get('targs', '')[:50], sample={'loader': 'valarray', 'op': 'resize(temp.size())'})
             else:
@@ -222,13 +227,27 @@ def run(prog, rep):
         if pq == 'BitSerializer::Detail::SerializeFixedSizeArray':
             rep.touch(f)
             ok = False
+
+            def classify(e):
+                if e['k'] == 'CXXMemberCallExpr' and (f.callee(e) or {}).get('n') == 'IsEnd':
+                    return ('SCOPE_END', True)
+                if e['k'] in ('BinaryOperator', 'CXXOperatorCallExpr') and e.get('op') in ('==', '!='):
+                    ops = e['c'][-2:]
+                    if all(f.type(o).strip() not in ('bool', 'const bool') for o in ops):
+                        return ('TARGET_END', e['op'] == '==')
+                return None
             for n in live_walk(f):
                 if n['k'] == 'IfStmt' and not n.get('cx'):
-                    c = child(n, 'cond')
-                    has_isend = any((f.callee(x) or {}).get('n') == 'IsEnd' for x in f.walk(c) if x['k'] == 'CXXMemberCallExpr')
-                    has_it = any(x.get('op') == '!=' for x in f.walk(c) if x['k'] in ('BinaryOperator', 'CXXOperatorCallExpr'))
-                    throws = any(x['k'] == 'CXXThrowExpr' for x in f.walk(child(n, 'then')))
-                    if has_isend and has_it and throws:
+                    th, el = child(n, 'then'), child(n, 'else')
+                    t_throw = th is not None and any(x['k'] == 'CXXThrowExpr' for x in f.walk(th))
+                    e_throw = el is not None and any(x['k'] == 'CXXThrowExpr' for x in f.walk(el))
+                    if t_throw == e_throw:
+                        continue
+                    be = BoolExpr(f, child(n, 'cond'), classify)
+                    if be.unknown or set(be.atoms) != {'SCOPE_END', 'TARGET_END'}:
+                        continue
+                    # throws exactly unless both the target and the loaded array are exhausted
+                    if all((v if t_throw else not v) == (not (env['SCOPE_END'] and env['TARGET_END'])) for env, v in be.table()):
                         ok = True
             if ok:
                 rep.ok('R18.1c', 'SerializeFixedSizeArray|' + f.sym.get('targs', '')[:50], nontrivial=False)
